@@ -260,7 +260,7 @@ def plan(tier, seed):
         for cwd in ('src', 'elsewhere', 'decoy', 'root'):
             for decoy in ('same', 'different'):
                 for via in ('api', 'api-rel', 'cli'):
-                    for size in ([0, 1, 64] if tier == 'quick' else [0, 1, 2, 64, 1000, 70000]):
+                    for size in ([0, 1, 5000] if tier == 'quick' else [0, 1, 2, 64, 1000, 5000, 70000]):
                         if via == 'cli' and tier == 'quick' and size == 1:
                             continue
                         cases.append({'kind': 'inc', 'loc': loc, 'cwd': cwd, 'decoy': decoy, 'via': via, 'size': size})
